@@ -304,9 +304,9 @@ const c08StatesPerFault = 3
 func (p *c08) Exhaustive(string) bool { return true }
 
 func (p *c08) NumCases(tier string) int {
-	n := len(c08FaultList) * 2 * c08StatesPerFault
+	n := len(c08FaultList) * 2 * c08StatesPerFault * 4
 	if tier == "thorough" {
-		n *= 20
+		n *= 10
 	}
 	return n
 }
